@@ -4,7 +4,7 @@
  *
  *   hashes a i j b  a i j b ...            -> the lp_polynomial_hash of every listed polynomial
  *   hs P (a i j b)*P ops...                -> "H h_0 .. h_{P-1}" then per op " ; ret size bits"
- *   hp P (a i j b key)*P ops...            -> per op " ; ret size", then the heap popped to empty
+ *   hp P (a i j b key)*P ops...            -> per op " ; ret size h<1 iff the array is heap ordered>", then the heap popped to empty
  *   vc P (a i j b)*P ops...                -> per op " ; ret size ids-in-order"
  * every line ends with leak=<bytes still allocated after everything of the case was destroyed, minus the
  * bytes allocated before the case> (0 = nothing leaked; measured with the sanitizer allocator interface).  A library call that does not return
@@ -247,6 +247,18 @@ static int heap_cmp(const lp_polynomial_t* A, const lp_polynomial_t* B) {
   long ka = a >= 0 ? g_key[a] : -1000000, kb = b >= 0 ? g_key[b] : -1000000;
   return (int)(ka - kb);                /* only the sign may matter */
 }
+/* invariant monitor on the real array (read through lp_polynomial_heap_at): no element is above its
+ * parent.  Checked after EVERY operation, so a breakage shows at the step where it happens even when
+ * later pops would happen to hide it. */
+static int heap_ordered(const lp_polynomial_heap_t* heap) {
+  size_t n = lp_polynomial_heap_size(heap);
+  for (size_t i = 1; i < n; ++i) {
+    const lp_polynomial_t* c = lp_polynomial_heap_at(heap, i);
+    const lp_polynomial_t* p = lp_polynomial_heap_at(heap, (i - 1) / 2);
+    if (!c || !p || heap_cmp(p, c) < 0) return 0;
+  }
+  return lp_polynomial_heap_at(heap, n) == NULL;
+}
 static void run_hp(void) {
   int t = read_pool(1);
   lp_polynomial_heap_t* heap = lp_polynomial_heap_new(heap_cmp);
@@ -302,7 +314,7 @@ static void run_hp(void) {
     case 's': oprintf(" %d", lp_polynomial_heap_is_empty(heap)); break;
     default: oprintf(" ?"); break;
     }
-    oprintf(" %zu", lp_polynomial_heap_size(heap));
+    oprintf(" %zu h%d", lp_polynomial_heap_size(heap), heap_ordered(heap));
   }
   oprintf(" ; D");
   for (;;) {
